@@ -17,6 +17,9 @@ type c14run[K comparable] struct {
 	real  col.MapLike[K, int]
 	model map[K]int
 	muted bool
+	// the Go map handed to MakeFromMap must stay what it was
+	srcMap  map[K]int
+	srcWant string
 }
 
 func (r *c14run[K]) modelStr() string { return r.canon(r.model) }
@@ -195,6 +198,10 @@ func (r *c14run[K]) step(rng *core.Rng) {
 		return
 	}
 	r.observe(op)
+	if r.srcMap != nil && r.canon(r.srcMap) != r.srcWant {
+		r.Fail(op+"/constructor-argument-changed", "the Go map passed to MakeFromMap changed: now %s, was %s", r.canon(r.srcMap), r.srcWant)
+		return
+	}
 	r.C.Cover("map." + op)
 	if r.muted {
 		r.C.Distinct(core.Mix(core.HashStr(r.d.Name), core.HashStr(before), core.HashStr(op+"/"+arg)))
@@ -232,6 +239,7 @@ func (r *c14run[K]) construct(rng *core.Rng) bool {
 				src[k] = v
 			}
 			r.real = M.MakeFromMap(src)
+			r.srcMap, r.srcWant = src, r.canon(src)
 		case 3:
 			r.Log("Map.MakeFromSequence(list %v %v)", strs(r.d, ks), vs)
 			r.real = M.MakeFromSequence(col.List[col.AssociationLike[K, int]](Notation).MakeFromArray(as))
